@@ -264,7 +264,7 @@ def character(l, R):
 # ----------------------------------------------------------------------------- SymOrbits structure models
 SYMORB_INV = ["CachedTables", "IrrDefinition", "GroupAxioms", "GreyGroup", "SiteMapPermutation", "ShiftsIntegral", "CentreMap",
               "SiteAction", "TripleAction", "TripleInjective", "TripleInverse", "OrbitsPartition", "IrreducibleReach", "FlipCommutes",
-              "FullShellsAllowed", "MixedOrbitClosed", "SubgroupClosed", "SubReach"]
+              "FullShellsAllowed", "MixedOrbitClosed", "SubgroupClosed", "SubReach", "BlockTripleMap", "BlocksPermutedDifferently"]
 DEN = 4
 CELL = {"cubic": (4.0, 4.0, 4.0), "tetra": (4.0, 4.0, 6.0), "ortho": (4.0, 5.0, 6.0), "hex": (4.0, 4.0, 6.0)}
 
@@ -277,9 +277,9 @@ def lattice_of(lat):
     return np.diag([a, b, c])
 
 
-def symorb_cfg(lats, nsites, poscat, magnetic, invariants=SYMORB_INV, subreps="sub"):
-    return ("SPECIFICATION Spec\nCONSTANTS\n  DEN = %d\n  LATS = {%s}\n  NSITES = {%s}\n  POSCAT = \"%s\"\n  MAGNETIC = %s\n  SUBREPS = \"%s\"\n" % (
-        DEN, ", ".join(f'"{x}"' for x in lats), ", ".join(str(x) for x in nsites), poscat, '"%s"' % (magnetic if isinstance(magnetic, str) else ("z" if magnetic else "none")), subreps) +
+def symorb_cfg(lats, nsites, poscat, magnetic, invariants=SYMORB_INV, subreps="sub", blockmap="own"):
+    return ("SPECIFICATION Spec\nCONSTANTS\n  DEN = %d\n  LATS = {%s}\n  NSITES = {%s}\n  POSCAT = \"%s\"\n  MAGNETIC = %s\n  SUBREPS = \"%s\"\n  BLOCKMAP = \"%s\"\n" % (
+        DEN, ", ".join(f'"{x}"' for x in lats), ", ".join(str(x) for x in nsites), poscat, '"%s"' % (magnetic if isinstance(magnetic, str) else ("z" if magnetic else "none")), subreps, blockmap) +
         "".join(f"INVARIANT {i}\n" for i in invariants) + "CHECK_DEADLOCK FALSE\n")
 
 
